@@ -132,7 +132,7 @@ __CPROVER_ensures((g_w >= __CPROVER_old(self->m_size) && g_w < theSize) ==> g_v1
         Mutant('resize_grow_skips_reserve', XV, r'            reserve\(theSize\);\n', '', expect=None),
         Mutant('pop_back_destroys_past_end', XV, r'(pop_back\(\)\s*\{\s*invariants\(\);\s*)--m_size;(\s*destroy\(m_data\[m_size\]\);)', r'\1\2\n\n        --m_size;', expect=None),
     ],
-    mechanisms=['XalanVector core'],
+    mechanisms=['XalanVector core', 'vector growth, insert and erase with element shifting'],
     assumptions=['pointers / iterators into m_data are element positions, m_data is a storage identity (0 = null); Constructor::construct, the element destructor, allocate and std::copy are stubs with the std meaning',
                  'grow(data) and doReserve(n) (a larger copy made by the copy constructor, then swap) are taken by contract; the copy constructor and swap are not verified here',
                  'at most 2^40 elements; value_type is int'],
